@@ -315,3 +315,227 @@ package variants
 //@   loop 0
 //@     invariant -1 <= rangeindex && rangeindex < len(a1)
 //@     decreases len(a1) - rangeindex
+
+// ---------------------------------------------------------------------------------------------
+// Conversions (C07). Payload formulas, written from the statement: milliseconds for time spans,
+// Unix seconds for date-times, != 0 for booleans, truncation for float -> integer.
+//
+//@ spec cI2TS(x int) time.Duration = wrap64(x * 1000000)
+//@ spec cTS2L(d time.Duration) int64 = d / 1000000
+//@ spec cI2DT(x int) time.Time = ext("time.Unix", "time.Time", x, 0)
+//@ spec cDT2L(t time.Time) int64 = ext("(time.Time).Unix", "int64", t)
+//@ spec toStr(x any) string = ext("(*github.com/pip-services3-gox/pip-services3-commons-gox/convert._TStringConverter).ToString", "string", x)
+//@ spec strToInt(s string) int = ext("(*github.com/pip-services3-gox/pip-services3-commons-gox/convert._TIntegerConverter).ToInteger", "int", box(s))
+//@ spec strToLong(s string) int64 = ext("(*github.com/pip-services3-gox/pip-services3-commons-gox/convert._TLongConverter).ToLong", "int64", box(s))
+//@ spec strToFloat(s string) float32 = ext("(*github.com/pip-services3-gox/pip-services3-commons-gox/convert._TFloatConverter).ToFloat", "float32", box(s))
+//@ spec strToDouble(s string) float64 = ext("(*github.com/pip-services3-gox/pip-services3-commons-gox/convert._TDoubleConverter).ToDouble", "float64", box(s))
+//@ spec strToTime(s string) time.Time = ext("(*github.com/pip-services3-gox/pip-services3-commons-gox/convert._TDateTimeConverter).ToDateTime", "time.Time", box(s))
+//@ spec strToDur(s string) time.Duration = ext("(*github.com/pip-services3-gox/pip-services3-commons-gox/convert._TDurationConverter).ToDuration", "time.Duration", box(s))
+//@ spec strToBool(s string) bool = ext("(*github.com/pip-services3-gox/pip-services3-commons-gox/convert._TBooleanConverter).ToBoolean", "bool", box(s))
+//
+// a successful conversion: a fresh valid variant of exactly the requested type, no error
+//@ pred okNew(result *Variant, err error, t VariantType) =
+//@     err == nil && result != nil && fresh(result) && vinv(result) && result.typ == t
+//@ pred failed(result *Variant, err error) = result == nil && err != nil
+//
+//@ pred convInteger(v *Variant, t VariantType, result *Variant, err error) =
+//@     (t == Long ==> okNew(result, err, Long) && result.value.(int64) == v.value.(int)) &&
+//@     (t == Float ==> okNew(result, err, Float) && result.value == box(f32(v.value.(int)))) &&
+//@     (t == Double ==> okNew(result, err, Double) && result.value == box(f64(v.value.(int)))) &&
+//@     (t == DateTime ==> okNew(result, err, DateTime) && result.value.(time.Time) == cI2DT(v.value.(int))) &&
+//@     (t == TimeSpan ==> okNew(result, err, TimeSpan) && result.value.(time.Duration) == cI2TS(v.value.(int))) &&
+//@     (t == Boolean ==> okNew(result, err, Boolean) && result.value.(bool) == (v.value.(int) != 0)) &&
+//@     (t != Long && t != Float && t != Double && t != DateTime && t != TimeSpan && t != Boolean ==> failed(result, err))
+//
+//@ pred convLong(v *Variant, t VariantType, result *Variant, err error) =
+//@     (t == Integer ==> okNew(result, err, Integer) && result.value.(int) == v.value.(int64)) &&
+//@     (t == Float ==> okNew(result, err, Float) && result.value == box(f32(v.value.(int64)))) &&
+//@     (t == Double ==> okNew(result, err, Double) && result.value == box(f64(v.value.(int64)))) &&
+//@     (t == DateTime ==> okNew(result, err, DateTime) && result.value.(time.Time) == cI2DT(v.value.(int64))) &&
+//@     (t == TimeSpan ==> okNew(result, err, TimeSpan) && result.value.(time.Duration) == cI2TS(v.value.(int64))) &&
+//@     (t == Boolean ==> okNew(result, err, Boolean) && result.value.(bool) == (v.value.(int64) != 0)) &&
+//@     (t != Integer && t != Float && t != Double && t != DateTime && t != TimeSpan && t != Boolean ==> failed(result, err))
+//
+//@ pred convFloat(v *Variant, t VariantType, result *Variant, err error) =
+//@     (t == Integer ==> okNew(result, err, Integer) && result.value.(int) == toint(trunc(f64(v.value.(float32))))) &&
+//@     (t == Long ==> okNew(result, err, Long) && result.value.(int64) == toint(trunc(f64(v.value.(float32))))) &&
+//@     (t == Double ==> okNew(result, err, Double) && result.value == box(f64(v.value.(float32)))) &&
+//@     (t == Boolean ==> okNew(result, err, Boolean) && result.value.(bool) == (v.value.(float32) != f32(0))) &&
+//@     (t != Integer && t != Long && t != Double && t != Boolean ==> failed(result, err))
+//
+//@ pred convDouble(v *Variant, t VariantType, result *Variant, err error) =
+//@     (t == Integer ==> okNew(result, err, Integer) && result.value.(int) == toint(trunc(v.value.(float64)))) &&
+//@     (t == Long ==> okNew(result, err, Long) && result.value.(int64) == toint(trunc(v.value.(float64)))) &&
+//@     (t == Float ==> okNew(result, err, Float) && result.value == box(f32(v.value.(float64)))) &&
+//@     (t == Boolean ==> okNew(result, err, Boolean) && result.value.(bool) == (v.value.(float64) != f64(0))) &&
+//@     (t != Integer && t != Long && t != Float && t != Boolean ==> failed(result, err))
+//
+//@ pred convString(v *Variant, t VariantType, result *Variant, err error) =
+//@     (t == Integer ==> okNew(result, err, Integer) && result.value.(int) == strToInt(v.value.(string))) &&
+//@     (t == Long ==> okNew(result, err, Long) && result.value.(int64) == strToLong(v.value.(string))) &&
+//@     (t == Float ==> okNew(result, err, Float) && result.value == box(strToFloat(v.value.(string)))) &&
+//@     (t == Double ==> okNew(result, err, Double) && result.value == box(strToDouble(v.value.(string)))) &&
+//@     (t == DateTime ==> okNew(result, err, DateTime) && result.value.(time.Time) == strToTime(v.value.(string))) &&
+//@     (t == TimeSpan ==> okNew(result, err, TimeSpan) && result.value.(time.Duration) == strToDur(v.value.(string))) &&
+//@     (t == Boolean ==> okNew(result, err, Boolean) && result.value.(bool) == strToBool(v.value.(string))) &&
+//@     (t != Integer && t != Long && t != Float && t != Double && t != DateTime && t != TimeSpan && t != Boolean ==> failed(result, err))
+//
+//@ pred convBoolean(v *Variant, t VariantType, result *Variant, err error) =
+//@     (t == Integer ==> okNew(result, err, Integer) && result.value.(int) == (v.value.(bool) ? 1 : 0)) &&
+//@     (t == Long ==> okNew(result, err, Long) && result.value.(int64) == (v.value.(bool) ? 1 : 0)) &&
+//@     (t == Float ==> okNew(result, err, Float) && result.value == box(v.value.(bool) ? f32(1) : f32(0))) &&
+//@     (t == Double ==> okNew(result, err, Double) && result.value == box(v.value.(bool) ? f64(1) : f64(0))) &&
+//@     (t == String ==> okNew(result, err, String) && result.value.(string) == (v.value.(bool) ? "true" : "false")) &&
+//@     (t != Integer && t != Long && t != Float && t != Double && t != String ==> failed(result, err))
+//
+//@ pred convDateTime(v *Variant, t VariantType, result *Variant, err error) =
+//@     (t == Integer ==> okNew(result, err, Integer) && result.value.(int) == cDT2L(v.value.(time.Time))) &&
+//@     (t == Long ==> okNew(result, err, Long) && result.value.(int64) == cDT2L(v.value.(time.Time))) &&
+//@     (t == String ==> okNew(result, err, String) && result.value.(string) == toStr(v.value)) &&
+//@     (t != Integer && t != Long && t != String ==> failed(result, err))
+//
+//@ pred convTimeSpan(v *Variant, t VariantType, result *Variant, err error) =
+//@     (t == Integer ==> okNew(result, err, Integer) && result.value.(int) == cTS2L(v.value.(time.Duration))) &&
+//@     (t == Long ==> okNew(result, err, Long) && result.value.(int64) == cTS2L(v.value.(time.Duration))) &&
+//@     (t == String ==> okNew(result, err, String) && result.value.(string) == toStr(v.value)) &&
+//@     (t != Integer && t != Long && t != String ==> failed(result, err))
+//
+//@ pred convNull(t VariantType, result *Variant, err error) =
+//@     (t == Integer ==> okNew(result, err, Integer) && result.value.(int) == 0) &&
+//@     (t == Long ==> okNew(result, err, Long) && result.value.(int64) == 0) &&
+//@     (t == Float ==> okNew(result, err, Float) && result.value == box(f32(0))) &&
+//@     (t == Double ==> okNew(result, err, Double) && result.value == box(f64(0))) &&
+//@     (t == Boolean ==> okNew(result, err, Boolean) && result.value.(bool) == false) &&
+//@     (t == DateTime ==> okNew(result, err, DateTime)) &&
+//@     (t == TimeSpan ==> okNew(result, err, TimeSpan) && result.value.(time.Duration) == 0) &&
+//@     (t == String ==> okNew(result, err, String) && result.value.(string) == "null") &&
+//@     (t == Object ==> okNew(result, err, Null)) &&
+//@     (t == Array ==> okNew(result, err, Array) && len(arrOf(result)) == 0) &&
+//@     (t == Null ==> failed(result, err))
+//
+//@ func typeToString
+//@   assigns nothing
+//@   nopanic
+//
+//@ func (c *TypeUnsafeVariantOperations) convertFromNull
+//@   ensures[C07,C03] convNull(newType, result, err)
+//@   assigns nothing
+//@   nopanic
+//@ func (c *TypeUnsafeVariantOperations) convertFromInteger
+//@   requires vinv(value) && value.typ == Integer
+//@   ensures[C07,C03] convInteger(value, newType, result, err)
+//@   assigns nothing
+//@   nopanic
+//@ func (c *TypeUnsafeVariantOperations) convertFromLong
+//@   requires vinv(value) && value.typ == Long
+//@   ensures[C07,C03] convLong(value, newType, result, err)
+//@   assigns nothing
+//@   nopanic
+//@ func (c *TypeUnsafeVariantOperations) convertFromFloat
+//@   requires vinv(value) && value.typ == Float
+//@   ensures[C07,C03] convFloat(value, newType, result, err)
+//@   assigns nothing
+//@   nopanic
+//@ func (c *TypeUnsafeVariantOperations) convertFromDouble
+//@   requires vinv(value) && value.typ == Double
+//@   ensures[C07,C03] convDouble(value, newType, result, err)
+//@   assigns nothing
+//@   nopanic
+//@ func (c *TypeUnsafeVariantOperations) convertFromString
+//@   requires vinv(value) && value.typ == String
+//@   ensures[C07,C03] convString(value, newType, result, err)
+//@   assigns nothing
+//@   nopanic
+//@ func (c *TypeUnsafeVariantOperations) convertFromBoolean
+//@   requires vinv(value) && value.typ == Boolean
+//@   ensures[C07,C03] convBoolean(value, newType, result, err)
+//@   assigns nothing
+//@   nopanic
+//@ func (c *TypeUnsafeVariantOperations) convertFromDateTime
+//@   requires vinv(value) && value.typ == DateTime
+//@   ensures[C07,C03] convDateTime(value, newType, result, err)
+//@   assigns nothing
+//@   nopanic
+//@ func (c *TypeUnsafeVariantOperations) convertFromTimeSpan
+//@   requires vinv(value) && value.typ == TimeSpan
+//@   ensures[C07,C03] convTimeSpan(value, newType, result, err)
+//@   assigns nothing
+//@   nopanic
+//
+// "returns a value of exactly the requested type (the unchanged value when Object or its own type is requested)"
+//@ pred convUnsafe(v *Variant, t VariantType, result *Variant, err error) =
+//@     (t == Null ==> okNew(result, err, Null)) &&
+//@     (t != Null && (t == v.typ || t == Object) ==> result == v && err == nil) &&
+//@     (t == String && v.typ != String ==> okNew(result, err, String) && result.value.(string) == toStr(v.value)) &&
+//@     (t != Null && t != v.typ && t != Object && t != String ==>
+//@         (v.typ == Null ==> convNull(t, result, err)) && (v.typ == Integer ==> convInteger(v, t, result, err)) &&
+//@         (v.typ == Long ==> convLong(v, t, result, err)) && (v.typ == Float ==> convFloat(v, t, result, err)) &&
+//@         (v.typ == Double ==> convDouble(v, t, result, err)) && (v.typ == DateTime ==> convDateTime(v, t, result, err)) &&
+//@         (v.typ == TimeSpan ==> convTimeSpan(v, t, result, err)) && (v.typ == String ==> convString(v, t, result, err)) &&
+//@         (v.typ == Boolean ==> convBoolean(v, t, result, err)) &&
+//@         (v.typ == Object || v.typ == Array ==> failed(result, err)))
+//
+//@ func (c *TypeUnsafeVariantOperations) Convert
+//@   requires vinv(value) && Null <= newType && newType <= Array
+//@   ensures[C07,C03] convUnsafe(value, newType, result, err)
+//@   ensures[C07,C03] (result != nil) != (err != nil)
+//@   ensures[C07] err == nil && newType != Object ==> vinv(result) && result.typ == newType
+//@   assigns nothing
+//@   nopanic
+//
+// The type-safe manager "permits only the numeric widenings ... reports every other conversion as an
+// error, and wherever it succeeds agrees with the type-unsafe manager" (same payload formulas)
+//@ pred widening(from VariantType, to VariantType) =
+//@     (from == Integer && (to == Long || to == Float || to == Double)) ||
+//@     (from == Long && (to == Float || to == Double)) || (from == Float && to == Double)
+//@ pred convSafe(v *Variant, t VariantType, result *Variant, err error) =
+//@     (t == Null ==> okNew(result, err, Null)) &&
+//@     (t != Null && (t == v.typ || t == Object) ==> result == v && err == nil) &&
+//@     (t != Null && t != v.typ && t != Object && !widening(v.typ, t) ==> failed(result, err)) &&
+//@     (widening(v.typ, t) ==> (v.typ == Integer ==> convInteger(v, t, result, err)) &&
+//@         (v.typ == Long ==> convLong(v, t, result, err)) && (v.typ == Float ==> convFloat(v, t, result, err)))
+//
+//@ func (c *TypeSafeVariantOperations) convertFromInteger
+//@   requires vinv(value) && value.typ == Integer
+//@   ensures[C07,C03] widening(Integer, newType) ==> convInteger(value, newType, result, err)
+//@   ensures[C07,C03] !widening(Integer, newType) ==> failed(result, err)
+//@   assigns nothing
+//@   nopanic
+//@ func (c *TypeSafeVariantOperations) convertFromLong
+//@   requires vinv(value) && value.typ == Long
+//@   ensures[C07,C03] widening(Long, newType) ==> convLong(value, newType, result, err)
+//@   ensures[C07,C03] !widening(Long, newType) ==> failed(result, err)
+//@   assigns nothing
+//@   nopanic
+//@ func (c *TypeSafeVariantOperations) convertFromFloat
+//@   requires vinv(value) && value.typ == Float
+//@   ensures[C07,C03] widening(Float, newType) ==> convFloat(value, newType, result, err)
+//@   ensures[C07,C03] !widening(Float, newType) ==> failed(result, err)
+//@   assigns nothing
+//@   nopanic
+//@ func (c *TypeSafeVariantOperations) Convert
+//@   requires vinv(value) && Null <= newType && newType <= Array
+//@   ensures[C07,C03] convSafe(value, newType, result, err)
+//@   ensures[C07,C03] (result != nil) != (err != nil)
+//@   ensures[C07] err == nil && newType != Object ==> vinv(result) && result.typ == newType
+//@   assigns nothing
+//@   nopanic
+//
+// ---- round trips of the widening conversions, over the payload formulas above -------------------
+//@ axiom unixRoundTrip(s int64)
+//@   ensures cDT2L(cI2DT(s)) == s
+
+//@ lemma rtIntTimeSpan(x int64)
+//@   tags C07
+//@   requires -9223372036854 <= x && x <= 9223372036854
+//@   ensures cTS2L(cI2TS(x)) == x
+//@ lemma rtFloatDouble(x float32)
+//@   tags C07
+//@   requires !isnan(x)
+//@   ensures f32(f64(x)) == x
+//@ lemma rtBoolInt(b bool)
+//@   tags C07
+//@   ensures ((b ? 1 : 0) != 0) == b
+//@ lemma rtBoolDouble(b bool)
+//@   tags C07
+//@   ensures ((b ? f64(1) : f64(0)) != f64(0)) == b
